@@ -47,4 +47,8 @@ CHECKS = {
         text='Bounded model checking of the real statement/value parser through a tokenizer seam: the value is a lazily chosen symbolic token stream of at most 4 tokens over a 19-kind (quick) / 36-kind (thorough) vocabulary, so every parser-distinguishable sequence within the bound is one path and the path tree is exhausted; accepted values must equal (value and type) the reference grammar of the property and ast.literal_eval; the parser may reject only dead prefixes / non-sentences, with a Syntax/Token error.',
         note=X_NOTE + ' The C tokenizer is an environment stub with a checked contract: every finished path is re-tokenised by the real tokenizer and re-parsed through the real tokenizer-driven parse_config and must agree (a disagreement is an infrastructure error, not a finding).',
         technique='CrossHair/z3 path exploration of ConfigParser.parse_statement/parse_value over a symbolic token stream (tokenizer stub), differential oracle = literal grammar + ast.literal_eval'),
+    'C03': dict(
+        text='Bounded exhaustive checking with a solver completeness certificate: every (statement kinds, layout feature combination) within the bound is rendered to text by a layout model and parsed by the real tokenizer+parser; the statement stream (scope, selector, parameter, value / module, from, alias / filename) and each statement line number must equal the canonical list and the resulting configuration must equal that of the canonical flat layout. Selector scanning is explored over all token/gap sequences of length 4-5 in 6 contexts: accepted iff gap-free and well-formed, never repaired.',
+        note=X_NOTE + ' Weakest use of the technique (DESIGN.md section 3): after the F-choices are made everything is concrete text processed natively; the solver certifies that the bounded choice space was covered completely (CONFIRMED).',
+        technique='CrossHair/z3 exhaustive path exploration over layout/selector choice vectors; real tokenizer+parser run per leaf against a layout reference model'),
 }
